@@ -889,6 +889,7 @@ def run(ctx, rep):
     rule_init(ctx, rep)
     from . import c05 as _c05
 
+    _c05.rule_free_type(ctx, rep)  # "each input element is destroyed exactly once, by the resulting allocation": the last owner frees the block through its own, fat, un-retyped pointer (a thin prefix pointer destroys no element)
     _c05.rule_layout(ctx, rep)  # "the given contents": every element written lands inside the block - the block is requested with the layout of the type it is filled as, for every payload shape
     from .. import guards
 
@@ -926,6 +927,7 @@ def main(argv):
             "element-for-element for every input (a value property), nor the order iterators yield."
             ' R-RETYPE as a premise (header-erasing conversions keep header and elements in place: equal layouts on the shape matrix, guards evaluated).'
             ' Round fourteen: R-LAYOUT as a premise (elements written into a block that is too short are not the given contents); R-PARKED also covers `mem::forget` of a caller-supplied parameter without a hand-over.'
+            ' Round sixteen: R-FREE-TYPE as a premise.'
         ),
         rule_text="instances = payload fields per allocation region, constructors (length flow, source disarming), loop shape, fast-path guard, delegating constructors",
         trusted_base=["rustc MIR def-use, dominators computed on it", "ptr::write / copy_nonoverlapping semantics", "expression extractor analysis/symx.py"],
